@@ -113,6 +113,13 @@ def build_tree(td: Path, rng, c):
     (td / "proj" / "sub" / "inc").write_text("#include 'inc2'\nb 5;\n")
     (td / "proj" / "sub" / "inc2").write_text("c 'x y';\n")
     (td / "proj" / "other.json").write_text('{"k": 1}')
+    # the same source reached through symbolic links: a linked file with another name in another folder, a linked folder
+    (td / "proj" / "shared").mkdir()
+    (td / "proj" / "shared" / "settings").write_text("// shared\na 1;\nn { p 2; }\n")
+    (td / "proj" / "shared" / "parsed.settings").write_text("unrelated 1;\n")
+    (td / "proj" / "case 01").mkdir()
+    os.symlink("../shared/settings", td / "proj" / "case 01" / "caseDict")
+    os.symlink("shared", td / "proj" / "dlink", target_is_directory=True)
     if c.get("target_exists"):
         p = td / "proj" / c["target"]
         p.parent.mkdir(parents=True, exist_ok=True)
@@ -203,12 +210,12 @@ def process(ctx: Ctx, cases: list[dict]) -> None:
                 opts = c["opts"]
                 res, eff, b, a = trace(td, lambda: DictParser.parse(proj / c["file"], **opts))
                 ch = [x for x in changed(b, a) if not x.endswith("/")]
-                if isinstance(res, Exception):
+                if isinstance(res, BaseException):      # also SystemExit: a scope that does not exist in the file
                     if ch:
                         ctx.violation("a failing parse changed the file system", c, ch, "nothing")
                     continue
                 name = create_target_file_name(proj / c["file"], prefix="parsed", scope=opts.get("scope"), output=opts.get("output")).name
-                exp_target = os.path.relpath(proj / name, td)
+                exp_target = os.path.relpath(Path(os.path.realpath((proj / c["file"]).parent)) / name, td)
                 if ch != [exp_target]:
                     ctx.violation("parse did not create/replace exactly the derived target file", c, ch, [exp_target])
                 if not ctx.oracle_only:
@@ -269,6 +276,9 @@ def run(ctx: Ctx) -> None:
         ctx.exhaustive.append("every option combination of DictParser.parse (includes x mode x order x comments x scope x output)")
     for inc, mode, order, comments, scope, output in combos:
         cases.append({"kind": "parse", "file": "src", "opts": {"includes": inc, "mode": mode, "order": order, "comments": comments, "scope": scope, "output": output}})
+    for file in ("case 01/caseDict", "dlink/settings", "sub/inc"):
+        for inc, mode, order, comments, scope, output in rng.sample(combos, 4) + [(True, "w", False, True, None, None)]:
+            cases.append({"kind": "parse", "file": file, "opts": {"includes": inc, "mode": mode, "order": order, "comments": comments, "scope": scope, "output": output}})
     for _ in range(ctx.n(60, 800)):
         d = gen.tree_dict(rng, 3, 4, leaf=lambda r: gen.scalar(r, strings=False), key_fn=lambda r: ("_" if r.random() < 0.25 else "") + gen.word(r))
         if rng.random() < 0.5:
